@@ -284,24 +284,72 @@ fn published(index: &Index, f: &Fields) -> Result<BTreeMap<u64, Vec<u8>>, String
 // ------------------------------------------------------------------------------------------ schedules
 /// Gate on the storage operations of the merge threads: the k-th Create/Write/Flush/Terminate/OpenRead
 /// issued by a thread named `merge_thread_*` blocks until released by the main thread.
-#[derive(Default)]
-struct GateSt { armed: Option<usize>, count: usize, blocked: bool, released: bool }
+struct GateSt {
+    armed: Option<usize>, count: usize, blocked: bool, released: bool,
+    /// second gate: park the `segment_updater` thread in its next AtomicWrite of meta.json
+    park_updater: bool, updater_blocked: bool, updater_released: bool,
+    /// activity of the merge threads (to detect that a merge has reached end_merge and went quiet)
+    merge_ops: usize, merge_terminates: usize, last_merge_op: std::time::Instant,
+}
+impl Default for GateSt {
+    fn default() -> Self {
+        GateSt { armed: None, count: 0, blocked: false, released: false, park_updater: false, updater_blocked: false, updater_released: false,
+                 merge_ops: 0, merge_terminates: 0, last_merge_op: std::time::Instant::now() }
+    }
+}
 #[derive(Default)]
 struct Gate { st: Mutex<GateSt>, cv: Condvar }
 impl Gate {
-    fn arm(&self, k: usize) { let mut g = self.st.lock().unwrap(); *g = GateSt { armed: Some(k), count: 0, blocked: false, released: false }; }
+    fn arm(&self, k: usize) { let mut g = self.st.lock().unwrap(); g.armed = Some(k); g.count = 0; g.blocked = false; g.released = false; }
     fn wait_blocked(&self, ms: u64) -> bool {
         let g = self.st.lock().unwrap();
         let (g, _) = self.cv.wait_timeout_while(g, Duration::from_millis(ms), |g| !g.blocked).unwrap();
         g.blocked
     }
     fn release(&self) { let mut g = self.st.lock().unwrap(); g.released = true; g.armed = None; self.cv.notify_all(); }
+    fn arm_updater(&self) { let mut g = self.st.lock().unwrap(); g.park_updater = true; g.updater_blocked = false; g.updater_released = false; }
+    fn wait_updater_blocked(&self, ms: u64) -> bool {
+        let g = self.st.lock().unwrap();
+        let (g, _) = self.cv.wait_timeout_while(g, Duration::from_millis(ms), |g| !g.updater_blocked).unwrap();
+        g.updater_blocked
+    }
+    fn release_updater(&self) { let mut g = self.st.lock().unwrap(); g.updater_released = true; g.park_updater = false; self.cv.notify_all(); }
+    fn reset_activity(&self) { let mut g = self.st.lock().unwrap(); g.merge_ops = 0; g.merge_terminates = 0; g.last_merge_op = std::time::Instant::now(); }
+    /// wait until the merge threads have terminated at least `min_term` files and then issued no storage
+    /// operation for `quiet_ms` (the merge has written its segment and waits in end_merge), at most `cap_ms`
+    fn wait_merge_quiet(&self, min_term: usize, quiet_ms: u64, cap_ms: u64) -> bool {
+        let t0 = std::time::Instant::now();
+        loop {
+            {
+                let g = self.st.lock().unwrap();
+                if g.merge_terminates >= min_term && g.last_merge_op.elapsed() >= Duration::from_millis(quiet_ms) { return true; }
+            }
+            if t0.elapsed() >= Duration::from_millis(cap_ms) { return false; }
+            std::thread::sleep(Duration::from_millis(5));
+        }
+    }
     fn install(self: &Arc<Self>, vd: &VerifDirectory) {
         let gate = self.clone();
-        vd.set_hook(Some(Arc::new(move |_d: &VerifDirectory, _seq: usize, kind: &OpKind, _path: &str| {
+        vd.set_hook(Some(Arc::new(move |_d: &VerifDirectory, _seq: usize, kind: &OpKind, path: &str| {
+            let name = std::thread::current().name().map(|n| n.to_string()).unwrap_or_default();
+            if name == "segment_updater" {
+                if *kind == OpKind::AtomicWrite && path == "meta.json" {
+                    let mut g = gate.st.lock().unwrap();
+                    if g.park_updater && !g.updater_released {
+                        g.updater_blocked = true;
+                        gate.cv.notify_all();
+                        while !g.updater_released { g = gate.cv.wait(g).unwrap(); }
+                    }
+                }
+                return;
+            }
+            if !name.starts_with("merge_thread") { return; }
+            {
+                let mut g = gate.st.lock().unwrap();
+                g.merge_ops += 1; g.last_merge_op = std::time::Instant::now();
+                if *kind == OpKind::Terminate { g.merge_terminates += 1; }
+            }
             if !matches!(kind, OpKind::Create | OpKind::Write | OpKind::Flush | OpKind::Terminate | OpKind::OpenRead) { return; }
-            let is_merge = std::thread::current().name().map(|n| n.starts_with("merge_thread")).unwrap_or(false);
-            if !is_merge { return; }
             let mut g = gate.st.lock().unwrap();
             g.count += 1;
             if let Some(k) = g.armed {
@@ -312,6 +360,26 @@ impl Gate {
                 }
             }
         })));
+    }
+}
+
+/// A merge policy scripted by the harness: when armed, the first list of >= `want` segments none of which is
+/// committed is merged as ONE candidate, segments in creation order (older first); fires once.
+#[derive(Default)]
+struct ScriptSt { armed: bool, want: usize, committed: Vec<SegmentId>, known_order: Vec<SegmentId>, fired: Option<Vec<SegmentId>> }
+#[derive(Clone, Default)]
+struct ScriptedPolicy(Arc<Mutex<ScriptSt>>);
+impl std::fmt::Debug for ScriptedPolicy { fn fmt(&self, f: &mut std::fmt::Formatter<'_>) -> std::fmt::Result { write!(f, "ScriptedPolicy") } }
+impl tantivy::merge_policy::MergePolicy for ScriptedPolicy {
+    fn compute_merge_candidates(&self, segments: &[tantivy::SegmentMeta]) -> Vec<tantivy::merge_policy::MergeCandidate> {
+        let mut g = self.0.lock().unwrap();
+        if !g.armed || segments.len() < g.want.max(2) { return vec![]; }
+        if segments.iter().any(|m| g.committed.contains(&m.id())) { return vec![]; }
+        let mut ids: Vec<SegmentId> = g.known_order.iter().filter(|i| segments.iter().any(|m| m.id() == **i)).cloned().collect();
+        for m in segments { if !ids.contains(&m.id()) { ids.push(m.id()); } }   // the segment just added: newest, last
+        g.armed = false;
+        g.fired = Some(ids.clone());
+        vec![tantivy::merge_policy::MergeCandidate(ids)]
     }
 }
 
@@ -417,7 +485,9 @@ fn run_schedule(rng: &mut Rng, kind: usize, k_gate: usize) -> Result<SchedOut, S
     let names = ["delete+commit during merge", "rollback during merge", "delete_all+commit during merge", "adds+commit during merge",
                  "two merges + delete+commit", "gc during merge", "merge of uncommitted segments, commit during merge", "explicit merge of uncommitted segments around a delete",
                  "control: two uncommitted segments around a delete, no merge",
-                 "rollback, delete as first operation, merge of committed segments, searcher before any commit"];
+                 "rollback, delete as first operation, merge of committed segments, searcher before any commit",
+                 "double gate: commit of a delete parked in its meta.json write while the merge reaches end_merge",
+                 "policy merge of uncommitted segments with a delete and re-adds between them"];
     let kname = names[kind];
     let committed: Vec<SegmentId> = index.searchable_segment_ids().map_err(|e| format!("{e}"))?;
     let mut gated = false;
@@ -481,6 +551,82 @@ fn run_schedule(rng: &mut Rng, kind: usize, k_gate: usize) -> Result<SchedOut, S
             s.trace.push(format!("merge ended: {}", match &r { Ok(Some(_)) => "segment".to_string(), Ok(None) => "no segment".to_string(), Err(e) => format!("error {e}") }));
             s.check("after end_merge, before any commit")?;
             s.commit()?;
+        }
+        10 => {
+            // the merge thread is parked early; a delete is committed asynchronously and the segment_updater thread is parked
+            // inside that commit's atomic_write(meta.json); the merge is released and runs into end_merge (its task queues
+            // behind the commit); only then the commit is released.  The reconciliation must see the NEW committed opstamp.
+            gate.reset_activity();
+            gate.arm(1);
+            let fut = s.start_merge(&committed)?;
+            s.trace.push(format!("start merge of {} committed segments (parked at its first storage operation)", committed.len()));
+            gated = gate.wait_blocked(1500);
+            let t = s.rng.below(4); s.del_tag(t);
+            if s.next > 0 { let i = s.rng.below(s.next); s.del_id(i); }
+            gate.arm_updater();
+            let fut_commit = { let prepared = s.w.prepare_commit().map_err(|e| format!("prepare_commit: {e}"))?; prepared.commit_future() };
+            let parked = gate.wait_updater_blocked(3000);
+            s.trace.push(format!("commit issued; segment_updater parked in atomic_write(meta.json): {parked}"));
+            gate.release();
+            let quiet = gate.wait_merge_quiet(1, 80, 4000);
+            s.trace.push(format!("merge released; reached end_merge and went quiet: {quiet}"));
+            gate.release_updater();
+            fut_commit.wait().map_err(|e| format!("commit: {e}"))?;
+            s.rp.commit(); s.ops.push("Commit".into()); s.new_segment(); s.trace.push("commit completed".into());
+            let r = fut.wait(); s.end_merge();
+            s.trace.push(format!("merge ended: {}", match &r { Ok(Some(_)) => "segment".to_string(), Ok(None) => "no segment".to_string(), Err(e) => format!("error {e}") }));
+            gated = gated && parked && quiet;
+            s.check("after commit and end_merge")?;
+            s.commit()?;
+        }
+        11 => {
+            // >= 2 uncommitted segments of one transaction, deletes issued between them, matching documents re-added after
+            // the delete, merged BY POLICY (fresh target opstamp), older segment first; then commit
+            let policy = ScriptedPolicy::default();
+            s.w.set_merge_policy(Box::new(policy.clone()));
+            let nsegs = s.rng.range(2, 3) as usize;
+            let mut created: Vec<SegmentId> = vec![];
+            let mut nos: Vec<u64> = vec![];
+            gate.reset_activity();
+            for j in 0..nsegs {
+                let before: BTreeSet<String> = s.segment_uuids().into_iter().collect();
+                if j > 0 {
+                    // delete a tag, then re-add documents carrying that very tag in the next segment
+                    let t = s.rng.below(4); s.del_tag(t);
+                    s.add_tagged(t)?; let n = s.rng.range(1, 3) as usize; s.add(n)?; s.add_tagged(t)?;
+                } else { let n = s.rng.range(2, 4) as usize; s.add(n)?; let t = s.rng.below(4); s.add_tagged(t)?; }
+                if j + 1 == nsegs {
+                    let mut g = policy.0.lock().unwrap();
+                    g.armed = true; g.want = nsegs; g.committed = committed.clone(); g.known_order = created.clone();
+                }
+                let no = s.seg_counter;
+                s.finalize_uncommitted()?;
+                let after: BTreeSet<String> = s.segment_uuids().into_iter().collect();
+                let fresh: Vec<&String> = after.difference(&before).collect();
+                if j + 1 < nsegs {
+                    if fresh.len() != 1 { return Err(format!("skip: expected one new segment, got {}", fresh.len())); }
+                    created.push(SegmentId::from_uuid_string(fresh[0]).map_err(|e| format!("{e}"))?);
+                }
+                nos.push(no);
+            }
+            let fired = policy.0.lock().unwrap().fired.clone();
+            match fired {
+                Some(ids) if ids.len() == nsegs && ids[..nsegs - 1] == created[..] => {
+                    s.ops.push(format!("StartPolicyMerge {}", cf::ns(&nos))); s.seg_counter += 1;
+                    s.trace.push(format!("policy merge of the {nsegs} uncommitted segments started (older first)"));
+                }
+                other => return Err(format!("skip: scripted policy did not fire as expected ({:?})", other.map(|v| v.len()))),
+            }
+            // let the merge finish (end_merge) before the commit so that the model's operation order is the real one
+            let quiet = gate.wait_merge_quiet(1, 80, 4000);
+            std::thread::sleep(Duration::from_millis(30));
+            s.end_merge();
+            s.trace.push(format!("merge went quiet (ended): {quiet}"));
+            gated = quiet;
+            if s.rng.chance(1, 2) { let t = s.rng.below(4); s.del_tag(t); }
+            s.commit()?;
+            s.w.set_merge_policy(Box::new(NoMergePolicy));
+            s.add(2)?; s.commit()?;
         }
         4 => {
             if committed.len() < 2 { return Err("skip: need two segments".into()); }
@@ -744,7 +890,7 @@ fn main() {
     let thorough = args.thorough();
     let mut out = CaseOut::new(&args.out, HEADER, 12);
 
-    let n_cases = if thorough { 900 } else { 120 };
+    let n_cases = if thorough { 900 } else { 100 };
     let coq_every = if thorough { 3 } else { 1 };
     for case_no in 0..n_cases {
         let nseg = match case_no % 7 { 0 => 1, 1 => 2, 2 => 3, 3 => 4, 4 => 5, 5 => 6, _ => rng.range(2, 6) as usize };
@@ -766,10 +912,10 @@ fn main() {
     }
 
     // ---------------- schedules: operations issued while a merge is running ----------------
-    let n_sched = if thorough { 500 } else { 80 };
+    let n_sched = if thorough { 600 } else { 96 };
     for i in 0..n_sched + 2 {
-        let kind = i % 10;
-        let k_gate = [1usize, 2, 3, 5, 8, 13, 21, 34, 55][(i / 10) % 9];
+        let kind = i % 12;
+        let k_gate = [1usize, 2, 3, 5, 8, 13, 21, 34, 55][(i / 12) % 9];
         let res = if i >= n_sched { guarded(|| run_corpus(&mut rng, i == n_sched)) } else { guarded(|| run_schedule(&mut rng, kind, k_gate)) };
         match res {
             Ok(Ok(o)) => {
